@@ -146,7 +146,11 @@ class Ref:
         self.forced = set()
 
     def inputs(self, k, name):
-        return [t for t in self.ev(k)[name]['inputs'].values() if not isinstance(t, tuple)]
+        info = self.ev(k)[name]
+        ins = [t for t in info['inputs'].values() if not isinstance(t, tuple)]
+        if info['spec'].get('access') == 'lazy' and not info['param_values'].get('use_all'):
+            return ins[:1]          # a run that does not read an input does not request it
+        return ins
 
     def request(self, k, name, fail=None):
         """Expected effect of requesting `name` through chain k.  fail: slug whose run raises (once).
